@@ -38,7 +38,7 @@ func thoroughExtras(c *Ctx, p *propInfo, r *Rep, extra map[string]any) {
 		} else {
 			r2 := newRep(c2, p.ID)
 			for _, rule := range p.Rules {
-				rule.Run(c2, r2)
+				rule.run(c2, r2)
 			}
 			nv := 0
 			for _, o := range r2.Obs {
@@ -251,7 +251,7 @@ func runOneMutant(id string) int {
 					}
 				}()
 				for _, rule := range p.Rules {
-					rule.Run(c, r)
+					rule.run(c, r)
 				}
 			}()
 			for _, o := range r.Obs {
